@@ -246,6 +246,9 @@ func ruleAllAncestors(rule string) RuleFn {
 		if fn := c.P.Func("(*dig.Scope).getAllProviders"); fn != nil {
 			c.See(fn)
 			ok, why := accum(fn, "p:k")
+			if !ok && parentWalkCollects(fn) {
+				ok, why = true, ""
+			}
 			c.Check(ok, rule, "getAllProviders(k) concatenates getProviders(k) of every ancestor", "for each of ancestors(): append(getProviders(k)...)", why, nil, nil)
 			for _, nm := range []string{"(*dig.Scope).getAllValueProviders", "(*dig.Scope).getAllGroupProviders"} {
 				f := c.Fn(rule, nm)
